@@ -145,6 +145,13 @@ func solveOne(o *Obligation, idx int, dir string, cfg SolverCfg) {
 	if short > cfg.Timeout {
 		short = cfg.Timeout
 	}
+	if o.Kind == "vacuity" && !cfg.AllAgree {
+		// reachability probes: a model is welcome, "unknown" is acceptable, only "unsat" is a finding
+		r, out, dt := runSolver(ctx, solvers[0], file, 1500*time.Millisecond, cfg.Seed)
+		o.Time += dt
+		o.Result, o.Solver, o.Output = r, solvers[0].name, out
+		return
+	}
 	if !cfg.AllAgree {
 		r, out, dt := runSolver(ctx, solvers[0], file, short, cfg.Seed)
 		o.Time += dt
